@@ -3,17 +3,23 @@ From Coq Require Import List Arith Bool Lia Permutation.
 From VGI Require Import M_Pool.
 Import ListNotations.
 Arguments read_logs : simpl never.
+Arguments do_drain : simpl never.
 
 (* ------------------------------------------------------------------------------------------------ *)
 (* What the theorems need from the source-derived decisions                                          *)
 Definition flags_clean (f : flags) : bool :=
   negb (f_inflight f) && (negb (f_opened f) || (f_has_sess f && f_sclosed f && f_sdrained f)).
 
+Definition drains_ok (D : drains) : Prop :=
+  (forall x, d_close_swallow D x = true -> d_close_mark D = false) /\
+  (forall x, d_cancel_swallow D x = true -> d_cancel_mark D = false).
+
 Record cfg_ok (C : cfg) : Prop := mkCfgOk {
   ok_track : c_track C = true;
   ok_abandoned : forall f, c_abandoned C f = false -> flags_clean f = true;
   ok_discard : forall closed m, c_discard C closed m = false -> 1 <= m;
-  ok_evict : forall total m, c_evict C total m = false -> total < m
+  ok_evict : forall total m, c_evict C total m = false -> total < m;
+  ok_drains : drains_ok (c_drains C)
 }.
 
 Lemma cfg_fixed_ok : cfg_ok cfg_fixed.
@@ -24,6 +30,7 @@ Proof.
     destruct a, b, c, d, e; simpl; intro H; try discriminate; reflexivity.
   - intros closed m H. apply orb_false_iff in H as [_ H]. apply Nat.eqb_neq in H. lia.
   - intros total m H. apply Nat.leb_gt in H. exact H.
+  - split; intros x _; reflexivity.
 Qed.
 
 (* ------------------------------------------------------------------------------------------------ *)
@@ -294,42 +301,63 @@ Ltac crush_flags :=
          | b : bool |- _ => destruct b
          end; simpl in *; try discriminate; try congruence; auto.
 
-Lemma do_close_ok alive ra u : ustate_ok u -> u_open u <> None -> ustate_ok (fst (do_close true alive ra u)).
+Lemma not_clean_undrained fl : f_opened fl = true -> f_sdrained fl = false -> flags_clean fl = false.
 Proof.
-  intros [H1 H2] Ho. destruct u as [c fl o n]; simpl in *. destruct o as [m|]; [|congruence].
-  destruct (H2 m eq_refl) as (Ha & Hb & Hc). unfold do_close; simpl.
-  destruct alive; simpl.
-  - destruct c; simpl.
-    + split; simpl; [|discriminate]. unfold flags_clean, fl_sclosed; simpl. rewrite Ha, Hc.
-      destruct (f_inflight fl), (f_has_sess fl); simpl; intro; discriminate.
-    + split; simpl; [reflexivity|discriminate].
-    + destruct (read_logs k n ra) as [cnt r]. destruct r; simpl.
-      * split; simpl; [|discriminate]. unfold flags_clean, fl_sclosed; simpl. rewrite Ha, Hc.
-        destruct (f_inflight fl), (f_has_sess fl); simpl; intro; discriminate.
-      * split; simpl; [reflexivity|discriminate].
-    + split; simpl; [|discriminate]. unfold flags_clean, fl_sclosed; simpl. rewrite Ha, Hc.
-      destruct (f_inflight fl), (f_has_sess fl); simpl; intro; discriminate.
-  - split; simpl; [|discriminate]. unfold flags_clean, fl_sclosed; simpl. rewrite Ha, Hc.
-    destruct (f_inflight fl), (f_has_sess fl); simpl; intro; discriminate.
+  destruct fl as [a b c d e]; simpl; intros -> ->. unfold flags_clean; simpl.
+  destruct a, c, d; reflexivity.
 Qed.
 
-Lemma do_exit_ok alive ra u : ustate_ok u -> ustate_ok (do_exit true alive ra u).
+Lemma closed_undrained_ok c fl n :
+  f_opened fl = true -> f_sdrained fl = false -> ustate_ok (mkU c (fl_sclosed true fl) None n).
 Proof.
-  intro H. unfold do_exit. destruct (u_open u) as [[|]|] eqn:E; auto.
-  apply do_close_ok; [exact H|congruence].
+  intros Ha Hc. split; simpl; [|discriminate].
+  rewrite (not_clean_undrained (fl_sclosed true fl)); [discriminate| |]; simpl; assumption.
 Qed.
 
-Lemma do_op_ok alive ra o u : ustate_ok u -> ustate_ok (fst (do_op true alive ra o u)).
+Lemma do_drain_ok swallow mark n ra fl cbn :
+  (forall x, swallow x = true -> mark = false) -> f_opened fl = true -> f_sdrained fl = false ->
+  ustate_ok (fst (do_drain swallow mark n ra (fl_sclosed true fl) cbn)).
 Proof.
-  intros H. pose proof H as [H1 H2]. destruct o; simpl.
+  intros Hm Ha Hc. unfold do_drain. destruct (read_logs n cbn ra) as [cnt r]. destruct r as [x|]; simpl.
+  - destruct (swallow x) eqn:Es; simpl.
+    + rewrite (Hm x Es). apply closed_undrained_ok; assumption.
+    + apply closed_undrained_ok; assumption.
+  - split; simpl; [reflexivity|discriminate].
+Qed.
+
+Lemma do_close_ok D alive ra u : drains_ok D -> ustate_ok u -> u_open u <> None -> ustate_ok (fst (do_close true D alive ra u)).
+Proof.
+  intros [HD _] [H1 H2] Ho. destruct u as [c fl o n]; simpl in *. destruct o as [m|]; [|congruence].
+  destruct (H2 m eq_refl) as (Ha & Hb & Hc). unfold do_close; cbn [u_fl u_conn u_cbn negb].
+  destruct alive; cbn [negb]; [|apply closed_undrained_ok; assumption].
+  destruct c; first [apply do_drain_ok; assumption | apply closed_undrained_ok; assumption | (simpl; apply closed_undrained_ok; assumption)].
+Qed.
+
+Lemma do_cancel_ok D alive ra u : drains_ok D -> ustate_ok u -> u_open u <> None -> ustate_ok (fst (do_cancel true D alive ra u)).
+Proof.
+  intros [_ HD] [H1 H2] Ho. destruct u as [c fl o n]; simpl in *. destruct o as [m|]; [|congruence].
+  destruct (H2 m eq_refl) as (Ha & Hb & Hc). unfold do_cancel; cbn [u_fl u_conn u_cbn negb].
+  destruct alive; cbn [negb]; [|apply closed_undrained_ok; assumption].
+  destruct c; first [apply do_drain_ok; assumption | apply closed_undrained_ok; assumption | (simpl; apply closed_undrained_ok; assumption)].
+Qed.
+
+Lemma do_exit_ok D alive ra u : drains_ok D -> ustate_ok u -> ustate_ok (do_exit true D alive ra u).
+Proof.
+  intros HD H. unfold do_exit. destruct (u_open u) as [[|]|] eqn:E; auto.
+  apply do_close_ok; [exact HD|exact H|congruence].
+Qed.
+
+Lemma do_op_ok D alive ra o u : drains_ok D -> ustate_ok u -> ustate_ok (fst (do_op true D alive ra o u)).
+Proof.
+  intros HD H. pose proof H as [H1 H2]. destruct o; simpl.
   - (* unary *)
     destruct (u_open u) eqn:Eo; simpl; [exact H|].
     destruct alive; simpl.
     + destruct (u_conn u) eqn:Ec; simpl;
         try (split; simpl; [unfold flags_clean; simpl; intro; discriminate|discriminate]).
-      destruct (read_logs LOGS (u_cbn u) ra) as [cnt r]. destruct r; simpl.
-      * split; simpl; [unfold flags_clean; simpl; intro; discriminate|discriminate].
-      * split; simpl; [reflexivity|discriminate].
+      destruct (read_logs LOGS (u_cbn u) ra) as [cnt r]. destruct r as [[| | |]|]; simpl;
+        try (split; simpl; [unfold flags_clean; simpl; intro; discriminate|discriminate]);
+        (split; simpl; [reflexivity|discriminate]).
     + split; simpl; [unfold flags_clean; simpl; intro; discriminate|discriminate].
   - (* open *)
     destruct (u_open u) eqn:Eo; simpl; [exact H|].
@@ -345,17 +373,18 @@ Proof.
   - (* tick *)
     destruct (u_open u) as [m|] eqn:Eo; simpl; [|exact H].
     destruct (H2 m eq_refl) as (Ha & Hb & Hc).
-    assert (Hnc : flags_clean (u_fl u) = false).
-    { unfold flags_clean. rewrite Ha, Hb. destruct (f_inflight (u_fl u)), (f_has_sess (u_fl u)); reflexivity. }
-    destruct alive; simpl.
-    + destruct (u_conn u) eqn:Ec; simpl;
-        try (split; simpl; [rewrite Hnc; intro; discriminate|intros m0 _; auto]).
-      destruct (read_logs LOGS (u_cbn u) ra) as [cnt r]. destruct r; simpl;
-        (split; simpl; [rewrite Hnc; intro; discriminate|intros m0 _; auto]).
-    + split; simpl; [|discriminate]. unfold flags_clean, fl_sclosed; simpl. rewrite Ha, Hc.
-      destruct (f_inflight (u_fl u)), (f_has_sess (u_fl u)); simpl; intro; discriminate.
+    assert (Hnc : flags_clean (u_fl u) = false) by (apply not_clean_undrained; assumption).
+    assert (Hopen : forall c n, ustate_ok (mkU c (u_fl u) (Some m) n)).
+    { intros c n. split; simpl; [rewrite Hnc; intro; discriminate|intros m0 _; auto]. }
+    destruct alive; simpl; [|apply closed_undrained_ok; assumption].
+    destruct (u_conn u) eqn:Ec; simpl; try apply Hopen.
+    destruct (read_logs LOGS (u_cbn u) ra) as [cnt r]. destruct r as [[| | |]|]; simpl; try apply Hopen.
+    + apply do_close_ok; [exact HD|apply Hopen|simpl; discriminate].
+    + apply closed_undrained_ok; assumption.
   - (* close *)
-    destruct (u_open u) eqn:Eo; simpl; [|exact H]. apply do_close_ok; [exact H|congruence].
+    destruct (u_open u) eqn:Eo; simpl; [|exact H]. apply do_close_ok; [exact HD|exact H|congruence].
+  - (* cancel *)
+    destruct (u_open u) eqn:Eo; simpl; [|exact H]. apply do_cancel_ok; [exact HD|exact H|congruence].
 Qed.
 
 (* ------------------------------------------------------------------------------------------------ *)
@@ -627,12 +656,12 @@ Section Steps.
       rewrite (ok_track C Hok).
       set (u := mkU (conn_of g p) (b_fl b) (b_open b) (b_cbn b)) in *.
       assert (Hfin : forall u0, ustate_ok u0 ->
-        Inv max (set_conn p (u_conn (do_exit true (alive_of g p) (b_raise b) u0)) g,
-                 l1 ++ TB (mkB (BRetPoll (if alive_of g p then c_abandoned C (u_fl (do_exit true (alive_of g p) (b_raise b) u0)) else true))
-                              (b_key b) (b_spawn_ok b) [] (b_raise b) (u_cbn (do_exit true (alive_of g p) (b_raise b) u0)) (Some p)
-                              (u_fl (do_exit true (alive_of g p) (b_raise b) u0)) (u_open (do_exit true (alive_of g p) (b_raise b) u0))) :: l2)).
-      { intros u0 Hu0. pose proof (do_exit_ok (alive_of g p) (b_raise b) u0 Hu0) as [Hx1 Hx2].
-        set (u' := do_exit true (alive_of g p) (b_raise b) u0) in *.
+        Inv max (set_conn p (u_conn (do_exit true (c_drains C) (alive_of g p) (b_raise b) u0)) g,
+                 l1 ++ TB (mkB (BRetPoll (if alive_of g p then c_abandoned C (u_fl (do_exit true (c_drains C) (alive_of g p) (b_raise b) u0)) else true))
+                              (b_key b) (b_spawn_ok b) [] (b_raise b) (u_cbn (do_exit true (c_drains C) (alive_of g p) (b_raise b) u0)) (Some p)
+                              (u_fl (do_exit true (c_drains C) (alive_of g p) (b_raise b) u0)) (u_open (do_exit true (c_drains C) (alive_of g p) (b_raise b) u0))) :: l2)).
+      { intros u0 Hu0. pose proof (do_exit_ok (c_drains C) (alive_of g p) (b_raise b) u0 (ok_drains C Hok) Hu0) as [Hx1 Hx2].
+        set (u' := do_exit true (c_drains C) (alive_of g p) (b_raise b) u0) in *.
         apply (inv_thread_step max g _ l1 (TB b) _ l2 []).
         - exact HI.
         - rewrite Hol. apply Sub_refl.
@@ -646,8 +675,8 @@ Section Steps.
         - exact Hha. }
       destruct (b_ops b) as [|o rest].
       + cbn [fst snd]. apply Hfin. exact Hu.
-      + pose proof (do_op_ok (alive_of g p) (b_raise b) o u Hu) as Hu1.
-        destruct (do_op true (alive_of g p) (b_raise b) o u) as [u1 raised]. cbn [fst] in Hu1.
+      + pose proof (do_op_ok (c_drains C) (alive_of g p) (b_raise b) o u (ok_drains C Hok) Hu) as Hu1.
+        destruct (do_op true (c_drains C) (alive_of g p) (b_raise b) o u) as [u1 raised]. cbn [fst] in Hu1.
         destruct raised; cbn [fst snd].
         * apply Hfin. exact Hu1.
         * apply (inv_thread_step max g _ l1 (TB b) _ l2 []).
